@@ -130,7 +130,9 @@ def mutate_shapes(rng, sg):
     cands = [t for t in g if str(t[1]).startswith(str(SH)) or t[1] in (RDF.first, RDF.rest)]
     if not cands:
         return g, "nothing to mutate"
-    s, p, o = rng.choice(sorted(cands))
+    # (blank node labels differ from run to run: order the candidates by their label-free parts first)
+    lab = lambda t: "_" if isinstance(t, BNode) else t.n3()
+    s, p, o = rng.choice(sorted(cands, key=lambda t: (lab(t[0]), t[1].n3(), lab(t[2]), t[0].n3(), t[2].n3())))
     how = rng.choice(["literal", "iri", "bnode", "list", "drop", "dup", "selfloop", "number", "bool"])
     g.remove((s, p, o))
     if how == "literal":
@@ -182,12 +184,12 @@ def main(tier, seed, replay=None):
     channels, raw, cli_jobs = {}, [], []
     data_ttl = CS.DATA
 
-    def note_raw(name, ch, e, shapes_ttl, opts):
+    def note_raw(name, ch, e, shapes_ttl, opts, data_text=None):
         if ch == "raw:ValueError" and "recursive rdf:rest" in str(e):
             if KNOWN_CYCLE in known:
                 rep.known_finding(KNOWN_CYCLE, "a cyclic rdf:rest chain in a list-valued parameter escapes as rdflib's ValueError('List contains a recursive rdf:rest reference') from Graph.items()")
                 return
-        raw.append({"what": "an undocumented exception escaped validate(): %s: %s" % (ch[4:], str(e)[:200]), "case": name, "shapes_ttl": shapes_ttl[-2500:], "options": opts})
+        raw.append({"what": "an undocumented exception escaped validate(): %s: %s" % (ch[4:], str(e)[:200]), "case": name, "shapes_graph": shapes_ttl, "data": "harness/c16_cases.py DATA" if not name.startswith("damaged") else data_text, "options": opts})
 
     for name, ttl, opts in api_cases:
         try:
@@ -210,7 +212,7 @@ def main(tier, seed, replay=None):
         key = ch if ch.startswith(("doc", "raw")) else ch.split(":")[0]
         channels[key] = channels.get(key, 0) + 1
         if ch.startswith("raw"):
-            note_raw("damaged shapes graph: " + how, ch, e, "\n".join(sorted(g2.serialize(format="nt").split("\n"))), opts)
+            note_raw("damaged shapes graph: " + how, ch, e, "\n".join(sorted(g2.serialize(format="nt").split("\n"))), opts, "\n".join(sorted(c["data"].serialize(format="nt").split("\n"))))
     # the known rdflib recursion finding: re-observe it (or notice that it is gone)
     chain = rdflib.Graph()
     for i in range(1500):
